@@ -22,7 +22,9 @@ export function encVal(v) {
     case "function": return A("fn");
     case "symbol": return A("sym");
   }
-  if (Array.isArray(v)) return [A("arr"), ...Array.from(v, encVal)];
+  // a hole of a sparse array is written `hole` (the model reads it as undefined, as `input[i]` does; iteration helpers
+  // of the runtime that skip holes then differ from the validator, which does not)
+  if (Array.isArray(v)) return [A("arr"), ...Array.from({ length: v.length }, (_, i) => (i in v ? encVal(v[i]) : A("hole")))];
   if (v instanceof Date) return [A("date"), Number.isNaN(v.getTime()) ? "invalid" : String(v.getTime())];
   if (v instanceof Map) return [A("map"), ...Array.from(v, ([k, x]) => [encVal(k), encVal(x)])];
   if (v instanceof Set) return [A("set"), ...Array.from(v, encVal)];
@@ -31,6 +33,13 @@ export function encVal(v) {
   const proto = Object.getPrototypeOf(v);
   const tag = proto === Object.prototype ? "obj" : proto === null ? "obj-nullproto" : "obj-otherproto";
   return [A(tag), ...Object.keys(v).map((k) => [k, encVal(v[k])])];
+}
+
+// results are compared with a model that has no holes: a hole that survives in an output (a value returned as it came
+// in) is written as the `undefined` every read of it gives
+export function encOut(v) {
+  const fix = (x) => (x instanceof Atom ? (x.s === "hole" ? A("undef") : x) : Array.isArray(x) ? x.map(fix) : x);
+  return fix(encVal(v));
 }
 
 export function decVal(x) {
@@ -48,7 +57,7 @@ export function decVal(x) {
     case "s": return x[1];
     case "big": return BigInt(x[1]);
     case "date": return new Date(x[1] === "invalid" ? NaN : Number(x[1]));
-    case "arr": return x.slice(1).map(decVal);
+    case "arr": { const items = x.slice(1); const a = new Array(items.length); items.forEach((it, i) => { if (!(it instanceof Atom && it.s === "hole")) a[i] = decVal(it); }); return a; }
     case "obj": {
       const o = {};
       for (const [k, v] of x.slice(1)) Object.defineProperty(o, k, { value: decVal(v), enumerable: true, writable: true, configurable: true });
